@@ -416,6 +416,8 @@ ADV = {
     "hb_response_unsolicited": ("c", 24, b"\x02\x00\x02hi" + b"\x00" * 16),
     "hb_bad_type": ("c", 24, b"\x07\x00\x02hi" + b"\x00" * 16),
     "hb_length_lie": ("c", 24, b"\x01\xff\xff" + b"a" * 20),
+    "hb_1byte": ("c", 24, b"\x01"),
+    "hb_2byte": ("s", 24, b"\x01\x00"),
     "cert_unknown_context": ("c", 22, None),
     "cert_request_to_server": ("c", 22, b"\x0d\x00\x00\x0b\x00\x00\x08"
                                b"\x00\x0d\x00\x04\x00\x02\x08\x04"),
@@ -434,7 +436,8 @@ ADV = {
     # CertificateVerify, Finished with a wrong verify_data
     "pha_bad_finished": ("c", 22, None),
 }
-ADV_OK_IGNORED = ("hb_response_unsolicited", "hb_bad_type", "hb_length_lie")
+ADV_OK_IGNORED = ("hb_response_unsolicited", "hb_bad_type", "hb_length_lie",
+                  "hb_1byte", "hb_2byte")
 
 
 def adversarial(w, i, op, history):
